@@ -246,7 +246,7 @@ def seedrep(si, clock, sA):
 
 # ------------------------------------------------------------------ modes
 
-MODES = ['layerB', 'list', 'j2', 'resume', 'notA', 'list_layerB', 'j3']
+MODES = ['layerB', 'list', 'j2', 'resume', 'notA', 'list_layerB', 'j3', 'list_j2']
 
 
 def _order(trace, pid_filter=None):
@@ -292,7 +292,7 @@ def modes(mode, sA, sB, seed_given, r0, r1, r2, r3, r4, spell=0):
     try:
         _r0, tr0, out0, seeds0 = _run(base, suites)
         extra = {'layerB': ['--layer', 'w.B'], 'list': ['--list-tests'], 'j2': ['-j2'], 'resume': [], 'notA': ['--layer', '!w.A'],
-                 'list_layerB': ['--list-tests', '--layer', 'w.B'], 'j3': ['-j3']}[mode]
+                 'list_layerB': ['--list-tests', '--layer', 'w.B'], 'j3': ['-j3'], 'list_j2': ['--list-tests', '-j2']}[mode]
         if mode == 'resume':
             # reference for 'resume' is a world whose layer A can be torn down
             with untraced():
@@ -340,7 +340,7 @@ def modes_oracle(mode, sizes, seed_given, tr0, out0, seeds0, tr1, out1, seeds1):
     for n, s in zip(LNAMES, sizes):
         if s and sorted(ref[n]) != ['%s%d' % (n.lower(), i) for i in range(s)]:
             return 'reference run: layer %s executed %r' % (n, ref[n]), None
-    if mode in ('list', 'list_layerB'):
+    if mode in ('list', 'list_layerB', 'list_j2'):
         if any(e[1] in ('test', 'su', 'td') for e in tr1):
             return '--list-tests executed test or layer code', None
         got = _listed(out1)
@@ -557,8 +557,8 @@ SPEC = {
          'timeout': {'quick': 120, 'thorough': 120},
          'fidelity': [dict(v=0)]},
         {'name': 'modes', 'fn': 'modes', 'params': _PM, 'call': _MC,
-         'bounds': {'quick': _MB + ' and sB == 2 and mode <= 4 and (spell == 0 or (sA == 2 and mode >= 1 and mode <= 3))', 'thorough': _MB + ' and (spell == 0 or sB == 2)'},
-         'slices': {'quick': ['mode == %d and sA == %d' % (m, a) for m in range(5) for a in (0, 2, 3)],
+         'bounds': {'quick': _MB + ' and sB == 2 and (mode <= 4 or mode == 7) and (spell == 0 or (sA == 2 and mode >= 1 and mode <= 3))', 'thorough': _MB + ' and (spell == 0 or sB == 2)'},
+         'slices': {'quick': ['mode == %d and sA == %d' % (m, a) for m in (0, 1, 2, 3, 4, 7) for a in (0, 2, 3)],
                     'thorough': ['mode == %d and sA == %d and sB == %d' % (m, a, b) for m in range(len(MODES)) for a in range(4) for b in (2, 3)]},
          'reach': 'modes_reach', 'reach_bounds': {'quick': _MB + ' and mode == 2 and sA == 2 and sB == 2 and seed_given',
                                                   'thorough': _MB + ' and mode == 2 and sA == 2 and sB == 2 and seed_given'},
